@@ -2223,11 +2223,15 @@ def timelike_to(v, force_oriented=False):
     We expect v to be timelike in order for this to make sense.
 
     """
-    if not timelike(v).all():
+    dim = np.array(v).shape[-1]
+
+    #strictly negative square-norm, whatever the size of v: timelike()
+    #also accepts lightlike (and slightly spacelike) vectors, which
+    #cannot be normalized, and the result is then not an isometry
+    if not (utils.normsq(v, minkowski(dim)) < 0).all():
         raise GeometryError( "Cannot find isometry taking a"
         " timelike vector to a non-timelike vector."  )
 
-    dim = np.array(v).shape[-1]
     return Isometry(utils.find_isometry(minkowski(dim),
                                         v, force_oriented),
                     column_vectors=False)
